@@ -45,6 +45,10 @@ findings:
 | ERR1 (dropped after test) | first version armed on the wrong edge: every `if error is not None: return None, error` was reported | polarity fixed; a path that produces an error of its own (Error(...), errors.append, non-zero return, something in the error slot) is not a drop |
 | C19 BYTES | `0x{byte:x}` (no zero padding) flagged for Go | for `0x` prefixes any hex format is exact; only `\\x` needs exactly two digits; the variant became a preserving one |
 | C30/C10 loops | `continue` after `errors.append(...)` and `enumerate(...)` loops | error-path skips and `enumerate` are recognised |
+| C26 LABEL-REWIRE | `self.label = label` in constructors, `statements[0].label = ...` (subscripted owner), `x.label is None` as one conjunct of a guard, the renumbering idiom `x.label = map[x.label]` | constructors skipped; owners compared by text; conjuncts split; a label replaced by the image of itself under a mapping is a renaming, not an overwrite |
+| C07 NONNULL | the error branch for Optional arguments contains a nested test that exempts parameters declared Optional: the whole branch was treated as "error recorded" | only the statements that append the error taint the path |
+| C17 PRE-SURR | `x.end is None or ord(x.end.character) < S` evaluated eagerly on the sample `end = None` | the predicate evaluator short-circuits like Python |
+| MEMBER-STORE (withdrawn) | `if k not in A: B[k] = v` with A != B has one deviant site (`_hierarchy.py`: methods tested against `observed_properties`); a model that exploits it is still rejected by a later check, so the property holds and the report would have been a false alarm | rule and repair withdrawn; the site is listed under 10.6 |
 """
 
 OBSERVED = """
@@ -59,8 +63,7 @@ under "not decided" in the C02 claim):
 * lists of lists (`List[List[int]]`) crash cpp, csharp, golang, java, python and typescript (`NotImplementedError` / assertion "contact the developers");
 * a class without a docstring crashes java, an abstract class without concrete descendants or a class without properties crashes python (`Stripped` precondition in `_generate_setter`);
 * a pattern range straddling U+FFFF/U+10000 violates a precondition in `_convert_to_surrogates` (cpp, csharp, jsonschema, smoke);
-* `intermediate/_hierarchy.py` tests `observed_properties` where `observed_methods` is meant (copy-paste);
-* type inference accepts `len(self.y)` for an Optional `y` (arguments of function calls are not checked for None).
+* `intermediate/_hierarchy.py` tests `observed_properties` where `observed_methods` is meant (copy-paste); a re-declared inherited method is still rejected by a later check with another message, so no property is violated.
 
 A rule for the first three would be "every explicit raise reachable from an
 execute() is guarded by a front-end rejection of the same shape": 127 explicit
